@@ -114,6 +114,13 @@ fn c23_grow_in_thread() {
                 kani::assert(INNER_RESULT == 2, "nested call without the red zone grows once more");
             }
         }
+        // back on this (outer) segment after the nested call returned: the next decision must be made against THIS segment again
+        let again = Co::maybe_grow_with(red, size, || corosensei::verif_on_stack().0);
+        if inner_sp_off >= red {
+            kani::assert(again.ok() == Some(1), "after a nested call returned, a callback that still has the red zone on the outer segment runs in place");
+        } else {
+            kani::assert(again.ok() == Some(2), "after a nested call returned, growth is decided against the outer segment again");
+        }
         token
     });
     kani::assert(r.ok() == Some(token), "the callback's value is returned");
